@@ -52,7 +52,7 @@ def source_facts():
         raise InternalError("rdb.rs: read_key_value_with_expiry / read_key_value_with_type not found")
     facts = {
         # proposed fix: the expired pair is deleted again (or skipped) instead of being loaded with ttl None
-        "dropExpired": bool(re.search(r"\.delete\s*\(|skip", exp)),
+        "dropExpired": bool(re.search(r"\.delete\s*\(", exp)),
         # proposed fix: the marker-only list re-creates the empty stream
         "keepEmptyStream": bool(re.search(r"empty_stream\s*\(|Stream::new\s*\(", typ)),
         "marker_sites": len(re.findall(r'b"' + MARKER.decode() + '"', rdb_nc)),
@@ -690,9 +690,12 @@ class C09:
         for (key, (dl, t, v)) in canon(ds).items():
             c0[key] = (dls.get(key) if dl is not None else None, t, v)
         indet = set(k for k, (dl, _, _) in c0.items() if dl is not None and (tl0 - TOL <= dl <= tl1 + TOL or ts0 - TOL <= dl <= ts1 + TOL))
+        # a short TTL that ran out before SAVE was even sent (slow machine): PTTL gave no deadline, the key is not judged
+        indet |= set(k for k, (dl, _, _) in canon(ds).items() if dl is not None and dls.get(k) is None)
+        self.indeterminate += len(indet)
         spec = {k: v for k, v in c0.items() if v[0] is None or v[0] > tl1}
         diffs = diff(got, spec, indet)
-        if extra_keys:
+        if extra_keys and not indet:
             diffs.append((("*", b"*"), "extra-keys:%d" % extra_keys, None, None))
         case = {"name": name, "kind": "tcp-restart", "ds": ds, "down": down_ms}
         for dfx in diffs:
